@@ -151,6 +151,14 @@ StepMetrics == /\ pc = "metrics" /\ aps' = [cd |-> ApsOf(rs2, g2, cfg.cd), pd |-
 
 PipelineNext == StepFilter \/ StepMatch \/ StepUuid \/ StepCrit \/ StepClassify \/ StepMetrics
 
+(* ---- progress: every evaluation runs through its six steps and stops ----- *)
+PcRank(p) == CASE p = "idle" -> 0 [] p = "filter" -> 1 [] p = "match" -> 2 [] p = "uuid" -> 3 [] p = "crit" -> 4 [] p = "classify" -> 5
+               [] p = "metrics" -> 6 [] OTHER -> 7
+\* some step is enabled until the evaluation is done (in particular the matcher always has an outcome) ...
+Progress == (pc \in {"filter", "match", "uuid", "crit", "classify", "metrics"}) => ENABLED PipelineNext
+\* ... and every step moves strictly forward, so an evaluation terminates after exactly six steps
+PcAdvances == [][PcRank(pc') = PcRank(pc) + 1]_mgrvars
+
 (* ---- properties (C03) --------------------------------------------------- *)
 Done == pc = "done"
 EstsOf(S) == {r[1] : r \in S}
